@@ -388,7 +388,8 @@ H_JSON = ('path_roundtrip_sqlite_1', 'path_roundtrip_sqlite_quote', 'path_roundt
           'json_extract', 'json_query_top_level_array', 'json_contains_nonzero_length', 'json_length_non_array', 'json_unwrap',
           'json_truthiness_sqlite', 'json_truthiness_sqlite_float', 'json_truthiness_postgres',
           'array_index', 'array_contains', 'array_contains_str', 'array_subset', 'array_slice',
-          'json_e2e_json1', 'json_e2e_fallback', 'json_e2e_negative_index', 'json_e2e_scalar_compare', 'array_e2e')
+          'json_e2e_json1', 'json_e2e_fallback', 'json_e2e_two_paths_json1', 'json_e2e_two_paths_fallback',
+          'json_e2e_negative_index', 'json_e2e_scalar_compare', 'array_e2e')
 
 
 def classify(spec, cex):
@@ -457,7 +458,7 @@ def run(tier, seed, only=None):
         'documents (traverse)': 'top scalar / list / dict of 0-2 entries, entry 0 leaf / list / dict of 0-2 leaves; leaves symbolic int, str len <= 1, bool, null; '
                                 'keys: unbounded symbolic int, symbolic str len <= 1 over {a, b}',
         'documents (through JSON text)': '18 entry values (10 scalars incl. float, 8 nested containers) x 3-5 top shapes x paths of 0-2 keys from 4-6 pooled keys',
-        'end to end (real SQLite, json1 on/off)': '5 documents x 20 operations x 8 x 3 keys; 13 leaves x 7 constants x ==/!= ; 4 arrays x 15 operations',
+        'end to end (real SQLite, json1 on/off)': '5 documents x 20 operations x 8 x 3 keys; two paths per query sharing a variable (6 tuple results, 6 and/or conditions) x 3 documents x 4 x 4 keys x 2 indexes; 13 leaves x 7 constants x ==/!= ; 4 arrays x 15 operations',
         'truthiness': '21 scalar/container candidates + 6 floats + missing path', 'arrays': 'symbolic List[int] len <= 3 with unbounded index/item; '
                       'List[str]; through JSON text: 8 arrays x 10 item lists, slices of n <= 4 with bounds in [-5, 5] or None'})
     rep.assumptions += ['functions that serialise (json.dumps/loads, %d formatting, regex) are run on solver-chosen pool members (concrete per path), the others on symbolic values',
